@@ -651,6 +651,14 @@ func runC06(c *Ctx) {
 	// scheduler acquires a slot before it receives the next action; a handler
 	// that still holds its slot while it blocks on the send deadlocks the run as
 	// soon as every slot is held by such a handler (few CPUs, wide fan-out).
+	// R6.9: configuration lists never alias inherited storage (same obligations
+	// as C11 R11.6). config.Load runs inside the config analyzer of concurrently
+	// running package actions; an append into the spare capacity of the default
+	// list is a write/write race and hands one package another directory's list.
+	c.Rule("R6.9", func() {
+		c.Floor("R6.9", 3)
+		configListOwnershipObligations(c)
+	})
 	c.Rule("R6.8", func() {
 		c.Floor("R6.8", 1)
 		slotReleasedBeforeSendObligations(c)
